@@ -3,7 +3,8 @@
    sh / shl / shp : shift of an interval / interval list / position with the sentinel -1;  rf / rfl / rfp : reflection of the same. *)
 From Coq Require Import ZArith NArith List Bool.
 From IQ.gen Require Import Prims Tables.
-From IQ Require Import CorrSupport Mirror MirrorProofs MirrorRegions MirrorPairs MirrorPairsProofs MirrorCorrector.
+From IQ Require Import CorrSupport Mirror MirrorProofs MirrorRegions MirrorPairs MirrorPairsProofs MirrorCorrector MirrorScore MirrorJunctions.
+From IQ Require Junctions AssignerScore.
 From IQ Require Intervals IntervalsSpec IntervalsProofs Cigar Cigar2 PolyA PolyA2 Regions Corrector.
 Import ListNotations. Open Scope Z_scope.
 
@@ -312,6 +313,33 @@ Theorem C11_elongation_no_common_exon_refuted :
 Proof. exact elongation_no_common_exon_refuted. Qed.
 Print Assumptions C11_elongation_no_common_exon_refuted.
 End Pairs.
+
+(* ================================================================ 7. inconsistency scoring, internal read ends, extra terminal exons *)
+(* select_best_among_inconsistent: the exact (rational) penalty of a candidate does not change when left and right are swapped in every event;
+   the bit-exact float model used by the correspondence has the same property (MirrorScore.select_best_swap, primitive floats, not restated here) *)
+Theorem C11_inconsistency_penalty_left_right : forall P e evs,
+  AssignerScore.event_penalty_q P (swap_sev e) = AssignerScore.event_penalty_q P e /\
+  AssignerScore.penalty_q P (map swap_sev evs) = AssignerScore.penalty_q P evs.
+Proof. intros. split; [apply event_penalty_q_swap|apply penalty_q_swap]. Qed.
+Print Assumptions C11_inconsistency_penalty_left_right.
+(* MIRROR PAIR IntronGraph.is_start_internal / is_end_internal *)
+Theorem C11_is_start_internal_is_mirror_of_is_end_internal : forall L delta introns pos,
+  is_start_internal delta (rfl L introns) (L + 1 - pos) = is_end_internal delta introns pos /\
+  is_end_internal delta (rfl L introns) (L + 1 - pos) = is_start_internal delta introns pos.
+Proof. intros. split; [apply is_start_internal_mirror|apply is_end_internal_mirror]. Qed.
+Print Assumptions C11_is_start_internal_is_mirror_of_is_end_internal.
+(* JunctionComparator.add_extra_out_exon_events (model of C01): terminal exons are measured alike on both sides, and the events of the
+   mirrored read are the mirror images with the two sides exchanged (at least one read intron matched) *)
+Theorem C11_terminal_exon_mirror : forall L reg l k, 0 <= k <= Junctions.lenz l ->
+  Junctions.exon (rf L reg) (rfl L l) (Junctions.lenz l - k) = rf L (Junctions.exon reg l k).
+Proof. exact exon_mirror. Qed.
+Print Assumptions C11_terminal_exon_mirror.
+Theorem C11_extra_out_exon_events_mirror : forall L P rreg R ireg rp nI, length rp = length R -> (1 <= length R)%nat ->
+  2 * Junctions.lenz R < SMC_extra_left_mod_position -> forallb (Z.eqb 0) rp = false ->
+  exists left right, Junctions.extra_out P rreg R ireg rp = left ++ right /\
+    Junctions.extra_out P (rf L rreg) (rfl L R) (rf L ireg) (rev rp) = map (mevent (Junctions.lenz R) nI) right ++ map (mevent (Junctions.lenz R) nI) left.
+Proof. exact extra_out_mirror. Qed.
+Print Assumptions C11_extra_out_exon_events_mirror.
 
 (* ================================================================ the hypotheses are satisfiable *)
 Example C11_hypotheses_satisfiable :
